@@ -214,6 +214,7 @@ func builders(r *RunCtx) {
 	zap.ValidateDocFields = defaultValidate
 	resetEngineHooks()
 	r.countN("sim.steps", sim.steps)
+	r.countN("probe.sched.yield-under-lock-recoveries", sim.lockStalls)
 	r.countN("sim.switches", sim.switches)
 	for site, n := range sim.siteCounts {
 		r.countN("probe.yield."+site, n)
